@@ -1,6 +1,7 @@
 import ShootVerif.Proofs.CtorMain
 import ShootVerif.Model.TParams
 import ShootVerif.Proofs.CtorSelect
+import ShootVerif.Proofs.CtorFresh
 /-!
 C02 — `NewT(args…)` stores every constructor parameter in exactly the field it is named after
 (including fields promoted from embedded structs, built as nested literals, pointer embeds
@@ -121,6 +122,120 @@ theorem C02_value_at_path (t : Tree) (hwf : WF t = true) :
       cases hnm : nameMap (hasNewTop t) (flatten t) l.info.name <;>
         by_cases htop : l.top <;> by_cases hd : l.info.defv = "" <;>
         simp [entryExpr, mkField, hnm, hsh, htop, hd, evalExpr]
+
+/-- the property's domain with parameter-name collisions allowed: only the FIELD names of the visible leaves have to
+    be pairwise distinct (`userID` next to `UserID` is fine: the generator appends `_` until the name is free) -/
+def WFg (t : Tree) : Bool := wfLevels t && wfFieldNames t && !skipWithDef t
+
+/-- the region the check asserts is exactly `WFg` -/
+theorem regionG_WF_iff (t : Tree) : regionG t = "WF" ↔ WFg t = true := by
+  unfold regionG WFg
+  cases wfLevels t <;> cases wfFieldNames t <;> cases skipWithDef t <;> simp
+
+/-- `WF` is the special case where no suffix is needed -/
+theorem WF_imp_WFg (t : Tree) (h : WF t = true) : WFg t = true := by
+  simp only [WF, WFg, wfParamNames, wfFieldNames, Bool.and_eq_true, Bool.not_eq_true', decide_eq_true_eq] at h ⊢
+  refine ⟨⟨h.1.1, ?_⟩, h.2⟩
+  have hp := h.1.2
+  -- distinct images under `paramName` force distinct names
+  have : ((visibleLeaves t).map (fun l => l.info.name)).map paramName = (visibleLeaves t).map (fun l => paramName l.info.name) := by
+    simp [List.map_map, Function.comp]
+  rw [← this] at hp
+  exact nodup_of_map paramName _ hp
+
+/-- parameters = the eligible leaves, in depth-first declaration order, under pairwise distinct names — also when
+    two fields camel-case to the same parameter name -/
+theorem C02_param_order_general (t : Tree) (hwf : WFg t = true) :
+    (gen t).params.map Prod.fst =
+        (specParams t).map (fun l => assignedName (hasNewTop t) (flatten t) l.info.name) ∧
+      ((gen t).params.map Prod.fst).Nodup := by
+  simp only [WFg, Bool.and_eq_true, Bool.not_eq_true'] at hwf
+  have hnd := hwf.1.2
+  have e := paramNames_spec_gen t hnd
+  refine ⟨e, ?_⟩
+  rw [e]
+  -- distinctness through injectivity on the eligible leaves
+  have hnodupLeaves : (specParams t).Nodup := by
+    have hnd' : ((visibleLeaves t).map (fun l => l.info.name)).Nodup := by simpa [wfFieldNames] using hnd
+    have hv : (visibleLeaves t).Nodup := nodup_of_map _ _ hnd'
+    have hsub : List.Sublist (specParams t) (visibleLeaves t) := by
+      unfold specParams visibleLeaves
+      have : (leavesTop t).filter (eligible t) =
+          ((leavesTop t).filter (fun l => !goShadowed t l.depth l.info.name)).filter (eligible t) := by
+        rw [List.filter_filter]
+        apply List.filter_congr
+        intro l _
+        unfold eligible
+        cases goShadowed t l.depth l.info.name <;> simp
+      rw [this]
+      exact List.filter_sublist
+    exact hsub.nodup hv
+  exact nodup_map_of_inj _ _ hnodupLeaves (fun x hx l hl e' => assignedName_leaf_inj t hnd x l hx hl e')
+
+/-- HEADLINE, general form: the statement of `C02_value_at_path` for every tree in `WFg` (colliding parameter names
+    included) -/
+theorem C02_value_at_path_general (t : Tree) (hwf : WFg t = true) :
+    ∀ l ∈ leavesTop t, (gen t).valueAt l.path l.info.name = specLeaf t l := by
+  intro l hl
+  have hwf' := hwf
+  simp only [WFg, Bool.and_eq_true, Bool.not_eq_true'] at hwf'
+  obtain ⟨⟨hlev, hnd⟩, hsd⟩ := hwf'
+  have hw : WFLevels t := (wfLevels_iff t).mp hlev
+  obtain ⟨π, hp, hat⟩ := leafAt_of_mem t true [] false 0 hw l hl
+  simp only [List.nil_append] at hp
+  subst hp
+  unfold Gen.valueAt
+  rw [C02_body_reparse, at_lit _ _ l.path true [] false 0 t hw, hat, Option.bind_some, (C02_param_order_general t hwf).1]
+  unfold leafExpr specLeaf
+  by_cases hs : l.info.skip
+  · have hnd' : ¬ (l.top = true ∧ l.info.defv ≠ "") := by
+      intro hc
+      unfold skipWithDef at hsd
+      rw [List.any_eq_false] at hsd
+      exact hsd l hl (by simp [hc.1, hs, hc.2])
+    simp [hs, eligible, hnd']
+  · simp only [hs, Bool.false_eq_true, ↓reduceIte]
+    have hag := shadow_agrees t l hl
+    cases hsh : genShadow t l.depth l.info.name
+    · have hg : goShadowed t l.depth l.info.name = false := by
+        rw [← hag, hsh]
+      have hnm := nameMap_of_leaf_gen t (hasNewTop t) hnd l hl (by simpa using hs) hsh
+      cases hok : (!hasNewTop t || l.marked)
+      · rw [hok] at hnm
+        have hel : eligible t l = false := by simp [eligible, hg, hs, hok]
+        simp only [entryExpr, mkField, hnm, hel, Bool.false_eq_true, ↓reduceIte]
+        by_cases htop : l.top <;> by_cases hd : l.info.defv = "" <;> simp [htop, hd, evalExpr]
+      · rw [hok] at hnm
+        have hel : eligible t l = true := by simp [eligible, hg, hs, hok]
+        have hmem : l ∈ specParams t := by simp [specParams, hl, hel]
+        have hinj : ∀ x ∈ specParams t,
+            assignedName (hasNewTop t) (flatten t) x.info.name = assignedName (hasNewTop t) (flatten t) l.info.name → x = l :=
+          fun x hx e => assignedName_leaf_inj t hnd x l hx hmem e
+        have hinjk : ∀ x ∈ specParams t, Leaf.key x = Leaf.key l → x = l := by
+          intro x hx e
+          apply hinj x hx
+          have : x.info.name = l.info.name := by
+            have := congrArg Prod.snd e; simpa [Leaf.key] using this
+          rw [this]
+        obtain ⟨i, hi⟩ := idx_isSome_of_mem (specParams t) l hmem
+        have h1 := idx_map_inj (g := fun x : Leaf => assignedName (hasNewTop t) (flatten t) x.info.name) (specParams t) l hmem hinj
+        have h2 := idx_map_inj (g := Leaf.key) (specParams t) l hmem hinjk
+        simp only [entryExpr, mkField, hnm, hsh, Bool.not_false, ↓reduceIte, Option.map_some, evalExpr, hel]
+        rw [h1, h2, hi]
+    · have hg : goShadowed t l.depth l.info.name = true := by
+        rw [← hag, hsh]
+      have hel : eligible t l = false := by simp [eligible, hg]
+      simp only [hel, Bool.false_eq_true, ↓reduceIte]
+      cases hnm : nameMap (hasNewTop t) (flatten t) l.info.name <;>
+        by_cases htop : l.top <;> by_cases hd : l.info.defv = "" <;>
+        simp [entryExpr, mkField, hnm, hsh, htop, hd, evalExpr]
+
+/-- non-vacuity of the general form: `userID` and `UserID` both camel-case to `userId`; the second gets `userId_`, and
+    each argument lands in its own field -/
+example :
+    let t : Tree := .field { name := "userID" } (.field { name := "UserID" } .nil)
+    WF t = false ∧ WFg t = true ∧ (gen t).params.map Prod.fst = ["userId", "userId_"] := by
+  decide
 
 /-- "the field it is named after" = "the path the literal wrote": a leaf that no shallower member hides
     and that is the only member of its name at its depth is exactly what Go's selector `T.name`
